@@ -109,7 +109,7 @@ func cmdRun(args []string) int {
 	maxPaths := fs.Int("maxpaths", 0, "max paths")
 	budget := fs.Duration("budget", 10*time.Minute, "time budget")
 	qt := fs.Duration("qtimeout", 20*time.Second, "per query timeout")
-	solvers := fs.String("solvers", "z3,cvc5int,z3new", "solver order")
+	solvers := fs.String("solvers", "z3,cvc5,cvc5int,z3new", "solver order")
 	dump := fs.String("dump", "", "dump queries to dir")
 	trace := fs.Bool("trace", false, "record scheduler events")
 	fs.Parse(args)
@@ -200,7 +200,7 @@ func (e *Engine) wantedCovers(fn *ssa.Function) []string {
 							ids[strings.Trim(k.Value.ExactString(), "\"")] = true
 						}
 					}
-					visit(callee)
+					// shared helpers declare their cover points with verifWant
 				}
 			}
 		}
@@ -238,9 +238,9 @@ func cmdCheck(args []string) int {
 		fmt.Println(err)
 		return 2
 	}
-	tc := tierCfg{budget: 150 * time.Second, qt: 15 * time.Second, solvers: []SolverKind{Z3, CVC5Int, Z3New}, cross: 0}
+	tc := tierCfg{budget: 150 * time.Second, qt: 15 * time.Second, solvers: []SolverKind{Z3, CVC5, CVC5Int, Z3New}, cross: 0}
 	if *tier == "thorough" {
-		tc = tierCfg{budget: 20 * time.Minute, qt: 60 * time.Second, solvers: []SolverKind{Z3, CVC5Int, Z3New}, cross: 7}
+		tc = tierCfg{budget: 20 * time.Minute, qt: 60 * time.Second, solvers: []SolverKind{Z3, CVC5, CVC5Int, Z3New}, cross: 7}
 	}
 	hs := e.harnesses(*prop, e.tier)
 	if *only != "" {
@@ -277,6 +277,9 @@ func cmdCheck(args []string) int {
 			}
 			sum := e.explore(h, cfg)
 			sum.CoverWanted = e.wantedCovers(e.pkg.Func(h))
+			for w := range sum.Wanted {
+				sum.CoverWanted = append(sum.CoverWanted, w)
+			}
 			results[i] = sum
 		}(i, h)
 	}
@@ -364,7 +367,7 @@ func firstLine(s string) string {
 // harnessSolvers: harnesses whose name contains "Arith" start with cvc5 bv-as-int.
 func (e *Engine) harnessSolvers(h string) []SolverKind {
 	if strings.Contains(h, "Arith") {
-		return []SolverKind{CVC5Int, Z3, Z3New}
+		return []SolverKind{CVC5Int, Z3, CVC5, Z3New}
 	}
 	return nil
 }
@@ -659,7 +662,7 @@ func writeEvidence(e *Engine, prop, tier string, sums []*Summary, nViol int, inc
 			"harnesses":    hrows,
 			"functions_encoded": fns, "library_functions_executed_from_ssa": libfns,
 			"bounds_hit": cuts,
-			"queries":    map[string]interface{}{"total": q.Queries, "sat": q.Sat, "unsat": q.Unsat, "unknown": q.Unknown, "errors": q.Errors, "by_backend": map[string]int64{"z3-4.8.12": q.ByBackend[Z3], "cvc5-bv-as-int": q.ByBackend[CVC5Int], "z3-5.1.0": q.ByBackend[Z3New]}, "cross_checked": q.CrossChk, "cross_disagreements": q.CrossDis},
+			"queries":    map[string]interface{}{"total": q.Queries, "sat": q.Sat, "unsat": q.Unsat, "unknown": q.Unknown, "errors": q.Errors, "by_backend": map[string]int64{"z3-4.8.12": q.ByBackend[Z3], "cvc5-bv-as-int": q.ByBackend[CVC5Int], "z3-5.1.0": q.ByBackend[Z3New], "cvc5": q.ByBackend[CVC5]}, "cross_checked": q.CrossChk, "cross_disagreements": q.CrossDis},
 			"solver_time_s": float64(q.TimeNs) / 1e9,
 			"load_and_ssa_build_s": e.loadTime.Seconds(),
 			"inconclusive":  inconclusive,
